@@ -119,7 +119,7 @@ pub fn gen_case(t: &mut Tape, allow_disabled_cfg: bool) -> Case {
             if f.quals.is_empty() && t.chance(1, 5) {
                 f.quals = "async ".into();
                 if t.flip() {
-                    f.attrs.push("#[async_trait::async_trait]".into());
+                    f.attrs.push(gen::async_trait_attr(t));
                 }
             }
             if t.chance(1, 8) {
@@ -163,7 +163,7 @@ pub fn gen_case(t: &mut Tape, allow_disabled_cfg: bool) -> Case {
             let mut tr = gen::gen_trait(t, "Tr", &tcfg);
             tr.attrs = mk.some(t, 2);
             if t.chance(1, 5) {
-                tr.attrs.push("#[async_trait::async_trait]".into());
+                tr.attrs.push(gen::async_trait_attr(t));
             }
             for it in tr.items.iter_mut() {
                 if let TraitItemSrc::Method(m) = it {
